@@ -1,12 +1,14 @@
 import Model.EmfSpec
 import Props.C08Lemmas
 import Props.C08Inv
+import Props.C08Members
 /-!
 # C08 — EMF validation rejects exactly the malformed entries, never alters valid output
 
 Theorems about `EmfSpec.validate` (transcription of the validation-map state machine of emf.rs),
 `EmfSpec.Defective` (the property's list of defects) and `EmfSpec.records`.
-The helper lemmas (state-machine invariant) are in `Props/C08Lemmas.lean`.
+The helper lemmas are in `Props/C08Lemmas.lean` (simulation), `Props/C08Inv.lean` (state-machine invariant)
+and `Props/C08Members.lean` (lift from the entry's slots to the records' member names).
 -/
 namespace EmfSpec
 
@@ -108,10 +110,9 @@ theorem c08_accepts_valid (cfg : Config) (ops : FloatOps F) (mult : Option Nat) 
   rw [h, h']
   exact ⟨rfl, rfl⟩
 
-/-- consequences of acceptance at the level of names: a string's name is used by no other value,
-(`c08_no_dup_members`, the statement that every emitted record has pairwise distinct member names, is
-FALSE for the unchanged code — see the witness below — because per-metric dimension KEYS are not
-checked; the record-level theorem under `dimKeysDisjoint` is not proved here, see notes/C08.md) -/
+/-- consequences of acceptance at the level of names: no two values under one name in one record, a
+string's name is used by no metric, names are valid, every declared dimension has a string value
+(the entry-level core; the record-level statement is `c08_no_dup_members_partial` below) -/
 theorem c08_accepted_names_partial (cfg : Config) (e : Entry F)
     (hu : noUnroutable e = true) (hv : noValueError e = true) (h : validate cfg allOn e = []) :
     noConflict (slots cfg e) = true
@@ -148,6 +149,162 @@ theorem c08_dup_member_witness :
         = [[[70, 111, 111], [77], [70, 111, 111]]] := by
   decide
 
+/-! ### the record-level statement
+
+The full statement
+
+    theorem c08_no_dup_members (cfg) (ops) (mult) (e) (hu : noUnroutable e = true)
+        (h : validate cfg allOn e = []) : ∀ r ∈ emit cfg ops mult e, r.memberNames.Nodup
+
+is FALSE for the model of the unchanged code (`c08_dup_member_witness` above and the four witnesses
+below): the keys of per-metric dimensions become members of the split record and are never validated.
+It holds under `dimKeysDisjoint cfg e` = `keysDistinct ∧ keysNotAws ∧ keysNotStrings ∧ keysNotMetrics`
+(`Model/EmfSpec.lean`), and none of the four clauses can be dropped. `noUnroutable` stays a hypothesis:
+`AllowUnroutableEntries` switches the uniqueness checks of metrics off (documented exemption). -/
+
+/-- **No emitted record has two members with the same name** (the `_aws` metadata member, the per-metric
+dimension members, the metric members and the string members of the record), for every configuration,
+number instance, sampling multiplicity and entry that is accepted with all validations on, does not
+carry the `AllowUnroutableEntries` exemption, and whose per-metric dimension keys collide with nothing.
+`_partial`: the hypothesis `dimKeysDisjoint` is necessary, the code does not enforce it. -/
+theorem c08_no_dup_members_partial (cfg : Config) (ops : FloatOps F) (mult : Option Nat) (e : Entry F)
+    (hu : noUnroutable e = true) (h : validate cfg allOn e = []) (hd : dimKeysDisjoint cfg e = true) :
+    records cfg allOn ops mult e = .ok (emit cfg ops mult e)
+    ∧ ∀ r ∈ emit cfg ops mult e, r.memberNames.Nodup := by
+  have hv : noValueError e = true := by
+    cases hve : noValueError e with
+    | true => rfl
+    | false => exact absurd h (c08_value_error_rejected cfg allOn e hve)
+  obtain ⟨hc, _, hn, _⟩ := c08_accepted_names_partial cfg e hu hv h
+  refine ⟨by unfold records; rw [h], emit_memberNames_nodup cfg ops mult e hc hn hd⟩
+
+/-- The default / entry dimension names need no clause of their own: in an accepted entry each of them
+is the name of a string value, so `keysNotStrings` keeps the per-metric dimension keys away from them. -/
+theorem c08_keys_not_declared (cfg : Config) (e : Entry F)
+    (hu : noUnroutable e = true) (hv : noValueError e = true) (h : validate cfg allOn e = [])
+    (hk : keysNotStrings cfg e = true) :
+    ∀ p ∈ metricItems e, ∀ k, routeOf cfg p.2 = some k → ∀ d ∈ k.map (·.1), d ∉ declaredDims cfg e := by
+  intro p hp k hr d hd hdecl
+  have hs := (c08_accepted_names_partial cfg e hu hv h).2.2.2 d hdecl
+  have hk' := allSplitKeys_spec cfg e _ hk k ((mem_splitKeys cfg e k).mpr ⟨p, hp, hr⟩)
+  have := List.all_eq_true.mp hk' d hd
+  simp [strNames] at hs this
+  obtain ⟨x, hx⟩ := hs
+  exact this x hx
+
+/-! #### tightness: each clause of `dimKeysDisjoint` alone
+
+Each witness is accepted with all validations on, is not `Defective`, violates exactly one clause, and
+its record has a duplicate member. `A` = 65, `M` = 77, `v` = 118, `w` = 119, `_aws` = 95 97 119 115. -/
+
+/-- one split metric `M` = 1 with the per-metric dimensions `dims` -/
+def tightEntry (dims : Key) : Entry Nat :=
+  [ .timestamp 0, .allowSplit, .value [77] (.metric ⟨[.unsigned 1], none, dims, .plain⟩) ]
+
+/-- what every tightness witness has in common: accepted, in scope of the iff, not `Defective`, and
+the conclusion of `c08_no_dup_members_partial` fails -/
+def tightWitness (cfg : Config) (e : Entry Nat) : Prop :=
+  validate cfg allOn e = [] ∧ noUnroutable e = true ∧ noValueError e = true ∧ ¬ Defective cfg e
+  ∧ ¬ ∀ r ∈ emit cfg natOps none e, r.memberNames.Nodup
+
+instance (cfg : Config) (e : Entry Nat) : Decidable (tightWitness cfg e) := by
+  unfold tightWitness; infer_instance
+
+/-- only `keysDistinct` fails: the key `A` twice in one metric's dimensions → members `_aws A A M` -/
+example :
+    tightWitness witnessCfg (tightEntry [([65], [118]), ([65], [119])])
+    ∧ (keysDistinct witnessCfg (tightEntry [([65], [118]), ([65], [119])]),
+       keysNotAws witnessCfg (tightEntry [([65], [118]), ([65], [119])]),
+       keysNotStrings witnessCfg (tightEntry [([65], [118]), ([65], [119])]),
+       keysNotMetrics witnessCfg (tightEntry [([65], [118]), ([65], [119])])) = (false, true, true, true)
+    ∧ (emit witnessCfg natOps none (tightEntry [([65], [118]), ([65], [119])])).map Record.memberNames
+        = [[awsName, [65], [65], [77]]] := by
+  decide
+
+/-- only `keysNotAws` fails: the key `_aws` → members `_aws _aws M` -/
+example :
+    tightWitness witnessCfg (tightEntry [(awsName, [118])])
+    ∧ (keysDistinct witnessCfg (tightEntry [(awsName, [118])]),
+       keysNotAws witnessCfg (tightEntry [(awsName, [118])]),
+       keysNotStrings witnessCfg (tightEntry [(awsName, [118])]),
+       keysNotMetrics witnessCfg (tightEntry [(awsName, [118])])) = (true, false, true, true)
+    ∧ (emit witnessCfg natOps none (tightEntry [(awsName, [118])])).map Record.memberNames
+        = [[awsName, awsName, [77]]] := by
+  decide
+
+/-- only `keysNotStrings` fails (the entry of `c08_dup_member_witness`): the key `Foo` and the string
+`Foo` → members `_aws Foo M Foo` -/
+example :
+    tightWitness witnessCfg witnessEntry
+    ∧ (keysDistinct witnessCfg witnessEntry, keysNotAws witnessCfg witnessEntry,
+       keysNotStrings witnessCfg witnessEntry, keysNotMetrics witnessCfg witnessEntry)
+        = (true, true, false, true)
+    ∧ (emit witnessCfg natOps none witnessEntry).map Record.memberNames
+        = [[awsName, [70, 111, 111], [77], [70, 111, 111]]] := by
+  decide
+
+/-- the same clause through a default dimension: the default dimension `A` (with its string value, as
+validation demands) and the per-metric dimension key `A` → members `_aws A M A` -/
+example :
+    let cfg : Config := { witnessCfg with defaultDims := [[[65]]] }
+    let e : Entry Nat := .value [65] (.str [115]) :: tightEntry [([65], [118])]
+    tightWitness cfg e
+    ∧ (keysDistinct cfg e, keysNotAws cfg e, keysNotStrings cfg e, keysNotMetrics cfg e)
+        = (true, true, false, true)
+    ∧ (emit cfg natOps none e).map Record.memberNames = [[awsName, [65], [77], [65]]] := by
+  decide
+
+/-- … and through an entry dimension -/
+example :
+    let e : Entry Nat := .entryDims [[[65]]] :: .value [65] (.str [115]) :: tightEntry [([65], [118])]
+    tightWitness witnessCfg e
+    ∧ (keysDistinct witnessCfg e, keysNotAws witnessCfg e, keysNotStrings witnessCfg e,
+       keysNotMetrics witnessCfg e) = (true, true, false, true)
+    ∧ (emit witnessCfg natOps none e).map Record.memberNames = [[awsName, [65], [77], [65]]] := by
+  decide
+
+/-- only `keysNotMetrics` fails: the key `M` of the metric `M` itself → members `_aws M M` -/
+example :
+    tightWitness witnessCfg (tightEntry [([77], [118])])
+    ∧ (keysDistinct witnessCfg (tightEntry [([77], [118])]),
+       keysNotAws witnessCfg (tightEntry [([77], [118])]),
+       keysNotStrings witnessCfg (tightEntry [([77], [118])]),
+       keysNotMetrics witnessCfg (tightEntry [([77], [118])])) = (true, true, true, false)
+    ∧ (emit witnessCfg natOps none (tightEntry [([77], [118])])).map Record.memberNames
+        = [[awsName, [77], [77]]] := by
+  decide
+
+/-- `keysNotMetrics` only looks at the metrics of the SAME record: the key `G` of `M`'s dimensions and a
+metric `G` (= 71) without per-metric dimensions live in different records; all hypotheses hold. -/
+example :
+    let e : Entry Nat := tightEntry [([71], [118])] ++ [.value [71] (.metric ⟨[.unsigned 2], none, [], .plain⟩)]
+    validate witnessCfg allOn e = [] ∧ noUnroutable e = true ∧ dimKeysDisjoint witnessCfg e = true
+    ∧ (emit witnessCfg natOps none e).map Record.memberNames = [[awsName, [71], [77]], [awsName, [71]]] := by
+  decide
+
+/-! #### non-vacuity -/
+
+/-- a split entry with an entry dimension `S` (= 83), two strings `S`, `T`, the metric `M` in two
+different per-metric dimension sets (`A`=`v` and `B`=`w`), a second metric `N` in the set `B`=`w` with two
+observations (a histogram), and a metric `G` without per-metric dimensions -/
+def goodEntry : Entry Nat :=
+  [ .timestamp 1000, .allowSplit, .entryDims [[[83]]],
+    .value [83] (.str [115]), .value [84] (.str [116]),
+    .value [77] (.metric ⟨[.unsigned 1], none, [([65], [118])], .plain⟩),
+    .value [77] (.metric ⟨[.unsigned 2], some [109, 115], [([66], [119])], .hires⟩),
+    .value [78] (.metric ⟨[.unsigned 3, .unsigned 4], none, [([66], [119])], .plain⟩),
+    .value [71] (.metric ⟨[.unsigned 5], none, [], .noMetric⟩) ]
+
+/-- `goodEntry` meets every hypothesis of `c08_no_dup_members_partial`; it yields three records -/
+example :
+    noUnroutable goodEntry = true ∧ validate witnessCfg allOn goodEntry = []
+    ∧ dimKeysDisjoint witnessCfg goodEntry = true
+    ∧ (emit witnessCfg natOps none goodEntry).map Record.memberNames
+        = [ [awsName, [65], [77], [83], [84]],
+            [awsName, [66], [77], [78], [83], [84]],
+            [awsName, [71], [83], [84]] ] := by
+  decide
+
 end EmfSpec
 
 #print axioms EmfSpec.c08_error_writes_nothing
@@ -160,3 +317,5 @@ end EmfSpec
 #print axioms EmfSpec.c08_accepts_valid
 #print axioms EmfSpec.c08_accepted_names_partial
 #print axioms EmfSpec.c08_dup_member_witness
+#print axioms EmfSpec.c08_keys_not_declared
+#print axioms EmfSpec.c08_no_dup_members_partial
